@@ -27,6 +27,8 @@ def exec_case(rng):
     """la / load / store by name executed: the documented effect"""
     items, decls = rvasmgen.gen_abstract(rng, {"n": rng.choice([2, 4, 7]), "no_reserved": True})
     items = [it for it in items if it[0] in ("la", "loadv", "storev", "li", "mv", "label")]
+    # load-by-name into x0 / store-by-name through x0 cannot hold the address in the scratch register: outside the claim
+    items = [it for it in items if not (it[0] == "loadv" and it[2] == 0) and not (it[0] == "storev" and it[5] == 0)]
     text = rvasmgen.render(rng, items, decls)
     lines = ["sim.new single 1 - -", f"sim.load {rvasmgen.hx(text)}", "sim.arch", "sim.run 400", "sim.arch"]
     return Case("data-exec", lines, None, {"text": text, "kind": "exec", "abstract": (items, decls)})
